@@ -37,6 +37,9 @@ def jobs(tier):
                             continue
                         js.append(("job_restore", dict(_name="q=%s %s k=%d lens=%s msg=%s" % (qn, cls, k, lens, shape),
                                                        qn=qn, cls=cls, k=k, lens=lens, shape=shape)))
+    for g in ("I1024", "I2048", "I3072"):
+        js.append(("job_int_scalar_codec", dict(_name="real %s: every scalar of [0,q) survives scalar_to_bytes/bytes_to_scalar" % g, gname=g)))
+    js.append(("job_ed_scalar_codec", dict(_name="real Ed25519: every scalar of [0,L) survives the scalar codec")))
     return js
 
 
@@ -148,8 +151,8 @@ def oracle_restore(cls, k, shape, side, mode, pw, idA, idB, x):
                 return K[c](pw, idSymmetric=idA, params=params, entropy_f=e), e
             return K[c](pw, idA=idA, idB=idB, params=params, entropy_f=e), e
         for sd in sorted({side, SIDE_BYTE[pc], SIDE_BYTE[cls], 0x43}):
-            for md in sorted({mode, "own", "peer", "junk"}):
-                a, ent = mk(cls, x % q)
+            for md, xs in [(m_, x % q) for m_ in sorted({mode, "own", "peer", "junk"})] + [("peer", 0), ("peer", 1), ("peer", q - 1)]:
+                a, ent = mk(cls, xs)
                 own = a.start()
                 n0 = len(ent.calls)
                 before = dict(a.__dict__)
@@ -177,7 +180,7 @@ def oracle_restore(cls, k, shape, side, mode, pw, idA, idB, x):
                     return (True, "restore raised %r on %s pw=%r idA=%r idB=%r" % (e, nm, pw, idA, idB))
                 if d1 != d3:
                     return (True, "restored instance serializes differently on %s: %r vs %r" % (nm, d1, d3))
-                peer_msg = mk(pc, (x + 1) % q)[0].start()
+                peer_msg = mk(pc, (xs + 1) % q)[0].start()
                 body = {"own": own[1:], "peer": peer_msg[1:], "junk": bytes(len(own) - 1)}[md]
                 if shape == "short":
                     body = body[:-1]
@@ -192,4 +195,5 @@ def oracle_restore(cls, k, shape, side, mode, pw, idA, idB, x):
     return (False, "restored instances behave identically")
 
 
-ORACLES = dict(restore=oracle_restore)
+from checks.c15 import job_int_scalar_codec, job_ed_scalar_codec, ORACLES as _O15      # noqa: E402
+ORACLES = dict(_O15, restore=oracle_restore)
